@@ -89,6 +89,8 @@ def rand_case(rng):
     else:
         c = F(rng.choice([1, 2, 5]))
         ratio_obj = {0: c, 1: r * c}
+        if rng.random() < 0.5:          # a mapping shared by a multi-arm experiment: other arms must not matter
+            ratio_obj[2] = F(rng.choice([1, 4, 7]))
     return {"cc": n - k, "ct": k, "r": r, "ratio_obj": ratio_obj, "form": form,
             "method": rng.choice(["auto", "binom", "norm"]), "correction": rng.random() < 0.5}
 
@@ -169,9 +171,11 @@ def check_public(case):
         fails.append(f"pvalue {res.pvalue} outside [0,1]")
     # mapping form
     c = 3
-    res_d = tt.SampleRatio({0: c, 1: float(r * c)}, method=case["method"], correction=case["correction"]).analyze(data, 0, 1)
-    if abs(res_d.pvalue - res.pvalue) > 1e-9 * max(res.pvalue, 1e-300) + 1e-13 and not tie:
-        fails.append(f"mapping form pvalue {res_d.pvalue} != scalar form {res.pvalue}")
+    for extra in ({}, {2: 7, "other": 2}):      # a mapping with further arms gives the same test for this pair
+        res_d = tt.SampleRatio({0: c, 1: float(r * c), **extra}, method=case["method"],
+                               correction=case["correction"]).analyze(data, 0, 1)
+        if abs(res_d.pvalue - res.pvalue) > 1e-9 * max(res.pvalue, 1e-300) + 1e-13 and not tie:
+            fails.append(f"mapping form pvalue {res_d.pvalue} (arms {[0, 1] + list(extra)}) != scalar form {res.pvalue}")
     # swap roles, invert ratio
     res_s = tt.SampleRatio(float(1 / r), method=case["method"], correction=case["correction"]).analyze(data, 1, 0)
     if abs(res_s.pvalue - res.pvalue) > 1e-9 * max(res.pvalue, 1e-300) + 1e-13 and not tie:
